@@ -9,8 +9,8 @@ Lemma paused_blocks_step : forall c s cl,
 Proof.
   intros c s [o au] Hk Hp Ho. unfold step, step_gen, exec_gen, exec_kind. cbn [fst snd].
   destruct (knd c); try discriminate Hk;
-    destruct o; cbn in Ho; try discriminate; cbn [exec_paus exec_paus_lib];
-    unfold when_not_paused; try rewrite Hp; reflexivity.
+    destruct o; cbn in Ho; try discriminate; cbn [exec_paus exec_paus_ex exec_paus_lib];
+    unfold increment, when_not_paused; try rewrite Hp; reflexivity.
 Qed.
 
 Lemma run_app c s a b : run c s (a ++ b) = run c (run c s a) b.
@@ -298,6 +298,8 @@ Lemma cap_frame c h s cl : Inv c s -> Rel c h s -> is_cap (knd c) = true ->
   supply s' = (match fst cl with
                | Mint _ a => supply s + a
                | Burn _ a | BurnFrom _ _ a => supply s - a
+               | WhenNotPaused => supply s + 1
+               | WhenPaused => 0
                | _ => supply s end).
 Proof.
   intros HI HR Hk s' He. pose proof (exec_spec c h s cl HI HR) as H. rewrite He in H.
@@ -332,6 +334,8 @@ Proof.
     - (* Mint *)
       destruct (cap_mint_sound c s to amt au s' Hkc He) as (cp & C1 & C2 & C3 & C4 & C5 & _).
       rewrite I1 in C1. inversion C1; subst cp. split; [exact C2|lia].
+    - exfalso. unfold exec, exec_gen, exec_kind in He. cbn [fst snd] in He. rewrite Hk in He. discriminate He.
+    - exfalso. unfold exec, exec_gen, exec_kind in He. cbn [fst snd] in He. rewrite Hk in He. discriminate He.
     - exfalso. unfold exec, exec_gen, exec_kind in He. cbn [fst snd] in He. rewrite Hk in He. discriminate He. }
   eapply G; [apply init_inv; exact Hw|apply init_rel|].
   unfold init. rewrite Hk. cbn. split; [reflexivity|lia].
@@ -380,7 +384,9 @@ Proof.
       destruct (cap_mint_sound c s to amt au s' Hkc He) as (cp & C1 & C2 & C3 & C4 & _).
       rewrite C2. exact C4.
     - (* SetCap: by hypothesis not below the supply *)
-      rewrite F1, F2. unfold implies in Hs1. cbn [negb orb] in Hs1. b2p. exact Hs1. }
+      rewrite F1, F2. unfold implies in Hs1. cbn [negb orb] in Hs1. b2p. exact Hs1.
+    - exfalso. unfold exec, exec_gen, exec_kind in He. cbn [fst snd] in He. rewrite Hk in He. discriminate He.
+    - exfalso. unfold exec, exec_gen, exec_kind in He. cbn [fst snd] in He. rewrite Hk in He. discriminate He. }
   eapply G; [apply init_inv; exact Hw|apply init_rel|exact Hs|].
   unfold init. rewrite Hk. cbn. exact I.
 Qed.
@@ -391,14 +397,15 @@ Qed.
 (* for every state: migrate succeeds iff authorised and the flag is set; it clears the flag and
    runs _migrate; upgrade (authorised, wasm known) sets the flag; nothing else touches it *)
 Lemma migrate_step : forall c s d operator au,
-  knd c = KUpgV2 ->
+  knd c = KUpgV1 \/ knd c = KUpgV2 ->
   exec c s (Migrate d operator, au) =
     if has_auth au operator && N.eqb operator (owner c) && migrating s
     then Ok (set_mig (set_mdata s (Some d)) false) else Fail.
 Proof.
-  intros c s d operator au Hk. unfold exec, exec_gen, exec_kind. cbn [fst snd]. rewrite Hk.
-  cbn [exec_upg_v2]. unfold migrate, upg_require_auth, require_auth, ensure_can_complete_migration, complete_migration.
-  rewrite bind_guard2, bind_guard, if_and. reflexivity.
+  intros c s d operator au Hk. unfold exec, exec_gen, exec_kind. cbn [fst snd].
+  destruct Hk as [Hk|Hk]; rewrite Hk; cbn [exec_upg_v1 exec_upg_v2];
+    unfold migrate, upg_require_auth, require_auth, ensure_can_complete_migration, complete_migration;
+    rewrite bind_guard2, bind_guard, if_and; reflexivity.
 Qed.
 
 Lemma upgrade_step : forall c s w operator au,
@@ -415,7 +422,7 @@ Qed.
 (* over every call sequence from deployment: a migration succeeds exactly when it is authorised
    and an upgrade succeeded since the last successful migration (never before the first upgrade) *)
 Lemma migrate_once : forall c cs d operator au,
-  knd c = KUpgV2 -> wf_cfg c = true ->
+  knd c = KUpgV1 \/ knd c = KUpgV2 -> wf_cfg c = true ->
   let hs := hist_run c (hist0 c, init c) cs in
   snd (step c (snd hs) (Migrate d operator, au)) =
     has_auth au operator && N.eqb operator (owner c) && h_armed (fst hs).
@@ -453,7 +460,7 @@ Proof.
 Qed.
 
 Lemma migrate_once_explicit : forall c cs d operator au,
-  knd c = KUpgV2 -> wf_cfg c = true ->
+  knd c = KUpgV1 \/ knd c = KUpgV2 -> wf_cfg c = true ->
   snd (step c (run c (init c) cs) (Migrate d operator, au)) =
     has_auth au operator && N.eqb operator (owner c) && armed_after c (init c) false cs.
 Proof.
@@ -461,3 +468,10 @@ Proof.
   pose proof (migrate_once c cs d operator au Hk Hw) as H. cbn zeta in H.
   rewrite hist_run_state in H. rewrite H. rewrite armed_after_hist. reflexivity.
 Qed.
+
+(* a muxed receiver is the plain transfer to its underlying address, for every contract and state;
+   in particular the receiver vetting of the lists applies to that address *)
+Lemma muxed_receiver : forall c s f t i a au,
+  exec c s (TransferMux f t i a, au) = exec c s (Transfer f t a, au) /\
+  vetted (TransferMux f t i a) = [f; t] /\ pausable_op (TransferMux f t i a) = true.
+Proof. intros. repeat split. Qed.
